@@ -5,8 +5,12 @@ What the extraction changes - the complete list:
   * docstrings are dropped;
   * `for`/`while` statements that have a sidecar invariant are replaced by the classical cut
         assert Inv; havoc(modified); if *: {assume Inv & guard; BODY; assert Inv; stop} else {assume Inv & !guard}
+    (a `break` in BODY leaves the construct with the state BODY reached - no `assert Inv; stop` on that path - and execution continues
+    after the loop; `continue` goes to `assert Inv; stop`)
     loops without a sidecar entry are left alone and executed natively by CPython (concrete trip count);
-  * list comprehensions flagged in the sidecar are replaced by their closure form.
+  * list comprehensions flagged in the sidecar are replaced by their closure form;
+  * `a in b` / `a not in b` become `__vc.contains(a, b)` / `__vc.not_contains(a, b)`: identical for native operands (same evaluation
+    order, same result); a symbolic container answers with a formula instead of the native bool python would coerce it to.
 Everything else is compiled unchanged and executed by CPython.
 """
 import ast
@@ -93,9 +97,42 @@ def _has_break(stmts):
     return False
 
 
+class _OwnBreaks(ast.NodeTransformer):
+    """`break` statements that belong to the loop whose body is visited (not to a loop nested in it):  break -> <flag> = True; break"""
+
+    def __init__(self, flag):
+        self.flag = flag
+        self.n = 0
+
+    def visit_For(self, node):
+        # a nested native loop owns its breaks; a nested loop that was cut has become an if-construct around `for __once in (0,)`:
+        # the user-level breaks in there were already rewritten when that loop was cut
+        return node
+
+    visit_While = visit_For
+    visit_FunctionDef = visit_For
+    visit_Lambda = visit_For
+
+    def visit_Break(self, node):
+        self.n += 1
+        return [ast.Assign(targets=[ast.Name(id=self.flag, ctx=ast.Store())], value=ast.Constant(value=True), lineno=0), node]
+
+
+def _flag_breaks(body, flag):
+    t = _OwnBreaks(flag)
+    out = []
+    for st in body:
+        r = t.visit(st)
+        out.extend(r if isinstance(r, list) else [r])
+    return out, t.n
+
+
 class CompRewriter(ast.NodeTransformer):
     """[EXPR for x in ITER]  ->  __vc.comp(lambda x: EXPR, ITER)   (single generator, no conditions).
     At run time a concrete iterable gives an ordinary list; a symbolic-length one gives the closure form."""
+
+    def __init__(self, local_names=()):
+        self.local_names = set(local_names)
 
     def visit_ListComp(self, node):
         self.generic_visit(node)
@@ -106,7 +143,42 @@ class CompRewriter(ast.NodeTransformer):
             lam = ast.Lambda(args=ast.arguments(posonlyargs=[], args=[ast.arg(arg=g.target.id)], kwonlyargs=[], kw_defaults=[], defaults=[]), body=node.elt)
         else:
             return node
+        # python evaluates the element expression while the comprehension runs: the closure must not see later rebindings of the
+        # function's local variables (loop index incremented, name reused) - bind them now:  (lambda a, b: lambda x: EXPR)(a, b)
+        free = sorted({n.id for n in ast.walk(node.elt) if isinstance(n, ast.Name) and isinstance(n.ctx, ast.Load)} & self.local_names - {g.target.id})
+        if free:
+            outer = ast.Lambda(args=ast.arguments(posonlyargs=[], args=[ast.arg(arg=v) for v in free], kwonlyargs=[], kw_defaults=[], defaults=[]), body=lam)
+            grab = ast.Call(func=ast.Attribute(value=ast.Name(id='__vc', ctx=ast.Load()), attr='grab', ctx=ast.Load()),
+                            args=[ast.Call(func=ast.Name(id='locals', ctx=ast.Load()), args=[], keywords=[]), ast.Constant(value=tuple(free))], keywords=[])
+            lam = ast.Call(func=outer, args=[ast.Starred(value=grab, ctx=ast.Load())], keywords=[])
         return ast.Call(func=ast.Attribute(value=ast.Name(id='__vc', ctx=ast.Load()), attr='comp', ctx=ast.Load()), args=[lam, g.iter], keywords=[])
+
+    def visit_Compare(self, node):
+        """a in b  ->  __vc.contains(a, b)      a not in b  ->  __vc.not_contains(a, b)
+        (python coerces the result of `in` to a native bool; a symbolic container has to answer with a formula).  Native operands: `a in b`."""
+        self.generic_visit(node)
+        if len(node.ops) == 1 and isinstance(node.ops[0], (ast.In, ast.NotIn)):
+            attr = 'contains' if isinstance(node.ops[0], ast.In) else 'not_contains'
+            return ast.Call(func=ast.Attribute(value=ast.Name(id='__vc', ctx=ast.Load()), attr=attr, ctx=ast.Load()), args=[node.left, node.comparators[0]], keywords=[])
+        return node
+
+
+class _Unbound:
+    """a local variable that was not bound when a comprehension was created: any use is the UnboundLocalError python would raise"""
+
+    def __init__(self, name):
+        object.__setattr__(self, '_n', name)
+
+    def __getattr__(self, k):
+        raise UnboundLocalError("cannot access local variable '%s' where it is not associated with a value" % object.__getattribute__(self, '_n'))
+
+
+def local_names(fd):
+    out = {a.arg for a in fd.args.args + fd.args.kwonlyargs + fd.args.posonlyargs}
+    for n in ast.walk(fd):
+        if isinstance(n, ast.Name) and isinstance(n.ctx, ast.Store):
+            out.add(n.id)
+    return out
 
 
 class Cutter:
@@ -164,8 +236,8 @@ class Cutter:
                        ("if '%s' in locals(): %s = __vc.havoc(%d, '%s', locals())\n" % (m, m, k, m)) for m in mods)
 
     def cut_for(self, node, k):
-        if _has_break(node.body) and not any(isinstance(n, (ast.For, ast.While)) for s in node.body for n in ast.walk(s)):
-            raise Unsupported('break inside a cut loop')
+        body, nbrk = _flag_breaks(node.body, '__brk%d' % k)
+        node.body = body
         if isinstance(node.target, ast.Name):
             tgt = node.target.id
             unpack = ''
@@ -183,11 +255,13 @@ __rng{k} = __vc.loop_range({k}, {it})
 if __vc.nondet({k}):
     __vc.assume_iter({k}, __rng{k}, {tgt}, locals())
     {unpack}
+    __brk{k} = False
     for __once in (0,):
         pass
-    {tgt} = {tgt} + 1
-    __vc.preserve({k}, locals())
-    __vc.end_path()
+    if not __brk{k}:
+        {tgt} = {tgt} + 1
+        __vc.preserve({k}, locals())
+        __vc.end_path()
 else:
     __vc.assume_done({k}, __rng{k}, {tgt}, locals())
     {tgt} = {tgt} - 1
@@ -199,8 +273,8 @@ else:
         return new
 
     def cut_while(self, node, k):
-        if _has_break(node.body):
-            raise Unsupported('break inside a cut loop')
+        body, nbrk = _flag_breaks(node.body, '__brk%d' % k)
+        node.body = body
         mods = sorted(m for m in modified(node.body) if not m.startswith('__'))
         src = '''
 {pre}__vc.establish({k}, locals())
@@ -208,10 +282,12 @@ else:
     __vc.assume_inv({k}, locals())
     if not ({test}): __vc.end_path()
     __vc.variant_before({k}, locals())
+    __brk{k} = False
     for __once in (0,):
         pass
-    __vc.preserve({k}, locals())
-    __vc.end_path()
+    if not __brk{k}:
+        __vc.preserve({k}, locals())
+        __vc.end_path()
 else:
     __vc.assume_inv({k}, locals())
     if ({test}): __vc.end_path()
@@ -319,6 +395,21 @@ class VC:
             sl.at(SInt(j))
         return sl
 
+    def grab(self, env, names):
+        return tuple(env[n] if n in env else _Unbound(n) for n in names)
+
+    def contains(self, a, b):
+        from .core import SymSet
+        if isinstance(b, SymSet):
+            return b.has(a)
+        return a in b
+
+    def not_contains(self, a, b):
+        from .core import SymSet
+        if isinstance(b, SymSet):
+            return ~b.has(a)
+        return a not in b
+
     def loop_item(self, k, rng, idx):
         items = getattr(rng, 'items', None)
         if items is None:
@@ -400,7 +491,7 @@ def build(path, qualname, loops, namespace, keep_decorators=False):
     fd.decorator_list = []
     if fd.body and isinstance(fd.body[0], ast.Expr) and isinstance(fd.body[0].value, ast.Constant) and isinstance(fd.body[0].value.value, str):
         fd.body = fd.body[1:] or [ast.Pass()]
-    fd = CompRewriter().visit(fd)
+    fd = CompRewriter(local_names(fd)).visit(fd)
     _decls = {k: list(v.get('decl', {})) for k, v in loops.items()}
     cutter = Cutter(set(k for k in loops if not loops[k].get('abstract')), abstract=[k for k in loops if loops[k].get('abstract')])
     cutter.decls = _decls
